@@ -24,16 +24,16 @@ func VerifC05Ext() {
 }
 
 // VerifC05ExtArray: array form = disjunction of the pairwise form; empty lists give false.
-// Cases n1, n2 (0..2) and one zoom per list element via h, v (all IDs at (h,v) or (h+1,v+1)).
+// Cases n1, n2 (0..2); element i is at (h + bit_i(hm), v + bit_i(vm)): mixed zooms per axis inside and across the lists.
 func VerifC05ExtArray() {
 	n1, n2 := vCase("n1"), vCase("n2")
 	h, v := vCase("h"), vCase("v")
-	ord := vCase("ord")
+	hm, vm := vCase("hm"), vCase("vm") // bit i set: element i is one level finer horizontally / vertically
 	var l1, l2 []string
 	anyPair := false
 	var xs, ys, fs, hs, vs [4]int64
 	for i := int64(0); i < n1+n2; i++ {
-		hs[i], vs[i] = h+((i+ord)%2), v+((i+ord)%2)
+		hs[i], vs[i] = h+((hm>>uint(i))&1), v+((vm>>uint(i))&1)
 		xs[i], ys[i], fs[i] = vNondetInt64(vN("x", i)), vNondetInt64(vN("y", i)), vNondetInt64(vN("f", i))
 		vAssume(0 <= xs[i] && xs[i] < int64(1)<<uint(hs[i]) && 0 <= ys[i] && ys[i] < int64(1)<<uint(hs[i]))
 		vAssume(-(int64(1)<<uint(vs[i])) <= fs[i] && fs[i] < int64(1)<<uint(vs[i]))
